@@ -85,6 +85,20 @@ func (in *Interp) binop(op token.Token, xt types.Type, x, y Value, yt types.Type
 		b := basicOf(xt)
 		signed := isSigned(b)
 		tt := in.tt
+		if in.opts.IntLimbs && xv.sort.W == 64 && !bothConst(xv, yv) && (op == token.ADD || op == token.SUB || op == token.MUL) {
+			m := tt.Int(pow2(64))
+			a, b := tt.BV2Nat(xv), tt.BV2Nat(yv)
+			var r *Term
+			switch op {
+			case token.ADD:
+				r = tt.IBin(OIAdd, a, b)
+			case token.SUB:
+				r = tt.IBin(OISub, a, b)
+			default:
+				r = tt.IBin(OIMul, a, b)
+			}
+			return tt.Int2BV(64, tt.IBin(OIMod, r, m))
+		}
 		switch op {
 		case token.ADD:
 			return tt.BVBin(OAdd, xv, yv)
